@@ -26,7 +26,7 @@ struct Unlimited {
 };
 
 template <class U>
-std::string run_type(const char* tname, const vf::UrlCase& uc, uint32_t L, bool& nontrivial) {
+std::string run_type(const char* tname, const vf::UrlCase& uc, uint32_t L, bool& nontrivial, bool limited_first) {
   // ---- the start URL
   U obj;
   {
@@ -81,13 +81,17 @@ std::string run_type(const char* tname, const vf::UrlCase& uc, uint32_t L, bool&
     if (op.setter == vf::OP_COPY) continue;
     vf::Snapshot before = vf::snap(obj);
     U inf_copy = obj;
-    bool ret_inf;
+    // The unlimited twin is run before the limited operation in half of the cases and after
+    // it in the other half: with a fixed order the twin would always be the first to meet
+    // (and consume) state that an earlier operation left behind in the library.
+    bool ret_inf = false, ret = false;
+    if (limited_first) ret = vf::apply_op(obj, op.setter, op.value);
     {
       Unlimited nolimit;
       ret_inf = vf::apply_op(inf_copy, op.setter, op.value);
     }
     vf::Snapshot s_inf = vf::snap(inf_copy);
-    bool ret = vf::apply_op(obj, op.setter, op.value);
+    if (!limited_first) ret = vf::apply_op(obj, op.setter, op.value);
     vf::Snapshot after = vf::snap(obj);
     std::string w = std::string(tname) + " step " + std::to_string(stepno) + " " + vf::op_name(op.setter) + "(\"" + vf::show(op.value) + "\") on \"" + vf::show(before.href) + "\" under L=" + std::to_string(L) + ": ";
     bool is_void = op.setter == vf::S_SEARCH || op.setter == vf::S_HASH || (op.setter >= vf::OP_CLEAR_PORT && op.setter <= vf::OP_CLEAR_SEARCH);
@@ -140,7 +144,11 @@ void run_case(const uint8_t* data, size_t size, vf::Case& c) {
           {vf::S_PATHNAME, "//abc"}, {vf::S_PATHNAME, "//"}, {vf::S_PATHNAME, "/.//x"}, {vf::S_PATHNAME, "//cdn/assets/app"}, {vf::S_PATHNAME, "/a/../..//b"}, {vf::S_PATHNAME, "/a b"},
           {vf::S_HOST, ""}, {vf::S_HOST, "h"}, {vf::S_HOST, "x.y:8080"}, {vf::S_HOSTNAME, ""}, {vf::S_HOSTNAME, "\xc3\xbc.de"}, {vf::S_HOST, "1"},
           {vf::S_SEARCH, " \"<>"}, {vf::S_HASH, "a b`"}, {vf::S_USERNAME, "\xc3\xbc"}, {vf::S_PASSWORD, "p w"}, {vf::S_PORT, "8080"}, {vf::S_PROTOCOL, "https"}, {vf::S_PROTOCOL, "bar"},
-          {vf::OP_CLEAR_SEARCH, ""}, {vf::S_HREF, "foo:/.//p"}};
+          {vf::OP_CLEAR_SEARCH, ""}, {vf::S_HREF, "foo:/.//p"},
+          // setters that leave through an error exit half-way (host applied, port refused) in
+          // front of operations that grow the URL by a few bytes
+          {vf::S_HOST, "b:x"}, {vf::S_HOST, "h:/"}, {vf::S_HOST, "[::1]:z"}, {vf::S_HOST, "h: 80"}, {vf::S_HOST, "h:99999"}, {vf::S_HOSTNAME, "a b"}, {vf::S_PORT, "x"}, {vf::S_PROTOCOL, "1x"},
+          {vf::S_PORT, "1"}, {vf::S_PORT, "65535"}, {vf::S_HOST, "h:1"}};
       auto& g = bs.pick(grow);
       uc.ops.push_back({g.setter, g.setter == vf::S_PATHNAME && bs.chance(90) ? std::string("//") + vf::gen::path_segment(bs) + vf::gen::path(bs) : std::string(g.v)});
     }
@@ -167,10 +175,12 @@ void run_case(const uint8_t* data, size_t size, vf::Case& c) {
   c.hash = vf::hash_case(uc) ^ ((uint64_t)L * 0x9E3779B97F4A7C15ULL);
   if (c.want_render) c.render = "L=" + std::to_string(L) + " " + vf::render_case(uc);
   bool nt = false;
-  std::string d = run_type<ada::url_aggregator>("ada::url_aggregator", uc, L, nt);
+  const bool limited_first = (vf::hash_case(uc) >> 7) & 1;
+  VF_TAG_IF(limited_first, "limited_operation_before_unlimited_twin");
+  std::string d = run_type<ada::url_aggregator>("ada::url_aggregator", uc, L, nt, limited_first);
   ada::set_max_input_length(UINT32_MAX);
   if (!d.empty()) return c.fail(d);
-  d = run_type<ada::url>("ada::url", uc, L, nt);
+  d = run_type<ada::url>("ada::url", uc, L, nt, limited_first);
   ada::set_max_input_length(UINT32_MAX);
   if (!d.empty()) return c.fail(d);
   c.nontrivial = nt;
